@@ -83,6 +83,22 @@ def text_block_loops(fnode):
     return out
 
 
+def next_block_loops(fnode):
+    """loops `while True: v = next(<stream>[, default]) ... <list>.append(v)`: (loop, list name, line variable, producer assignment, default or None)"""
+    out = []
+    for lp in [n for n in walk_no_nested(fnode) if isinstance(n, ast.While) and isinstance(n.test, ast.Constant) and n.test.value is True]:
+        prods = [s_ for s_ in lp.body if isinstance(s_, ast.Assign) and len(s_.targets) == 1 and isinstance(s_.targets[0], ast.Name)
+                 and isinstance(s_.value, ast.Call) and norm(s_.value.func) == 'next' and 1 <= len(s_.value.args) <= 2]
+        if len(prods) != 1:
+            continue
+        v = prods[0].targets[0].id
+        apps = [c for c in walk_no_nested(lp) if isinstance(c, ast.Call) and isinstance(c.func, ast.Attribute) and c.func.attr == 'append'
+                and isinstance(c.func.value, ast.Name) and [norm(a) for a in c.args] == [v]]
+        if apps:
+            out.append((lp, apps[0].func.value.id, v, prods[0], prods[0].value.args[1] if len(prods[0].value.args) == 2 else None))
+    return out
+
+
 def text_block_function(fn):
     """(loop, list name) when fn is a helper `def h(stream, ...)` whose single text-block loop iterates its first parameter and
     which returns the collected list"""
@@ -237,6 +253,27 @@ class TableAnalysis:
                         ta.rows.append(dict(key=self.key, kind='yield', value=v, facts=f2, line=st.lineno))
                         out.append(affinterp.Outcome('fall', None, env, f2, None))
                     return out
+                if isinstance(st, ast.While):
+                    wrap = ast.Module(body=[st], type_ignores=[])
+                    nb = next_block_loops(wrap)
+                    if len(nb) != 1:
+                        raise AnalysisError('%s: while loop outside the table vocabulary: %s' % (ta.f.site, norm(st)[:50]))
+                    env = dict(env)
+                    lst = nb[0][1]
+                    if env.get(lst) != ():
+                        raise AnalysisError('%s: text-block list %s is not initialised to []' % (ta.f.site, lst))
+                    env[lst] = TEXT
+                    for n_ in ast.walk(st):
+                        if isinstance(n_, ast.Assign):
+                            for t_ in n_.targets:
+                                if isinstance(t_, ast.Name) and t_.id not in (lst, nb[0][2]):
+                                    env[t_.id] = FLAG
+                    # the raise statements of the loop (end of stream) belong to how the stream ends, not to the command
+                    for n_ in ast.walk(st):
+                        if isinstance(n_, ast.Raise):
+                            exc = n_.exc.func if isinstance(n_.exc, ast.Call) else n_.exc
+                            ta.rows.append(dict(key=self.key, kind='raise', exc=norm(exc) if exc is not None else '', facts=facts, line=n_.lineno, stream=True))
+                    return [affinterp.Outcome('fall', None, env, facts, None)]
                 if isinstance(st, ast.For):
                     env = dict(env)
                     tgt = [c for c in ast.walk(st) if isinstance(c, ast.Call) and isinstance(c.func, ast.Attribute) and c.func.attr == 'append']
@@ -396,12 +433,28 @@ def _flag_value(test, st):
     return None
 
 
-def failing_exit_reaches(g, inner, t, success_nodes, goal_ids):
+def _line_test(test, var, value, const_set):
+    """truth of a membership / equality test of the line variable when the line is the constant `value`"""
+    if isinstance(test, ast.UnaryOp) and isinstance(test.op, ast.Not):
+        v = _line_test(test.operand, var, value, const_set)
+        return None if v is None else not v
+    if isinstance(test, ast.Name) and test.id == var:
+        return bool(value)
+    if isinstance(test, ast.Compare) and len(test.ops) == 1 and norm(test.left) == var and isinstance(test.ops[0], (ast.In, ast.NotIn, ast.Eq, ast.NotEq)):
+        vals = const_set(test.comparators[0])
+        if vals is None:
+            return None
+        r = value in vals
+        return r if isinstance(test.ops[0], (ast.In, ast.Eq)) else not r
+    return None
+
+
+def failing_exit_reaches(g, inner, t, success_nodes, goal_ids, exhaust=None):
     """path search over the CFG that tracks (a) how the text-block loop was left -- through the branch of the "." line or any
     other way (stream exhausted, another break) -- and (b) the values of local boolean flags assigned constants, so that
     `terminated = True ... if not terminated: raise` is followed like the for/else form.  Returns a goal node reachable
     after an unsuccessful end of the loop, or None."""
-    it_ids = [p for p, _ in g.pred[t.id] if g.nodes[p].ast is inner.iter]
+    it_ids = [p for p, _ in g.pred[t.id] if getattr(inner, 'iter', None) is not None and g.nodes[p].ast is inner.iter]
     inside = {id(n_) for n_ in ast.walk(inner)}
     seen = set()
     stack = [(g.entry.id, None, frozenset())]
@@ -415,6 +468,19 @@ def failing_exit_reaches(g, inner, t, success_nodes, goal_ids):
         if n in goal_ids and tag == 'fail':
             return node
         d = dict(st)
+        if exhaust is not None and node.kind == 'stmt' and node.ast is exhaust[1]:
+            # the producer: either a line arrives, or the stream is exhausted and next() hands back its default
+            if exhaust[2] != ('raises',):
+                d2 = dict(d)
+                d2['$line'] = exhaust[2]
+                d2['$exhausted'] = True
+                for dst, lab in g.succ[n]:
+                    stack.append((dst, tag, frozenset(d2.items())))
+            d.pop('$line', None)
+            d.pop('$exhausted', None)
+            for dst, lab in g.succ[n]:
+                stack.append((dst, tag, frozenset(d.items())))
+            continue
         if node.kind == 'stmt' and isinstance(node.ast, (ast.Assign, ast.AugAssign, ast.AnnAssign)):
             tg = node.ast.targets if isinstance(node.ast, ast.Assign) else [node.ast.target]
             for x in tg:
@@ -425,7 +491,7 @@ def failing_exit_reaches(g, inner, t, success_nodes, goal_ids):
                     else:
                         d.pop(nm, None)
         if node.kind in ('break', 'return') and node.ast is not None and id(node.ast) in inside and tag is None:
-            tag = 'ok' if id(node.ast) in success_nodes else 'fail'
+            tag = 'ok' if id(node.ast) in success_nodes and not d.get('$exhausted') else 'fail'
         for dst, lab in g.succ[n]:
             t2 = tag
             if n == t.id and lab == 'exhausted':
@@ -434,8 +500,12 @@ def failing_exit_reaches(g, inner, t, success_nodes, goal_ids):
                 t2 = None
             if node.kind == 'test' and lab in (True, False):
                 v = _flag_value(node.ast, d)
+                if v is None and exhaust is not None and '$line' in d:
+                    v = _line_test(node.ast, exhaust[0], d['$line'], exhaust[3])
                 if v is not None and v != lab:
                     continue
+            if exhaust is not None and d.get('$exhausted') and dst == t.id and n != t.id and node.kind != 'stmt':
+                pass
             stack.append((dst, t2, frozenset(d.items())))
     return None
 
@@ -456,6 +526,11 @@ def r3_terminator(rep, src):
             if tb is not None:
                 rep.saw_func(h)
                 cands.append((h, tb[0], tb[1], 'helper'))
+    nexts = {}
+    for lp, lst, v_, prod, default in next_block_loops(f.node):
+        if any(isinstance(a_, ast.For) for a_ in ancestors_of(lp, f.node)):
+            cands.append((f, lp, lst, 'inline'))
+            nexts[id(lp)] = (v_, prod, default)
     if not cands:
         # itertools.takewhile on the command stream stops at the "." line and at the end of the input alike, and the caller cannot
         # tell which: an unterminated block is accepted
@@ -481,7 +556,8 @@ def r3_terminator(rep, src):
         goals = [n for n in g.nodes if n.kind == 'return' and n.ast is not None and n.ast.value is not None and norm(n.ast.value) == lst]
     if not goals:
         raise AnalysisError('%s: the collected text is never handed on' % fn.site)
-    lv = inner.target.id
+    nx = nexts.get(id(inner))
+    lv = nx[0] if nx is not None else inner.target.id
     consts = fn.module.consts.get('', {})
 
     def const_set(e):
@@ -515,7 +591,17 @@ def r3_terminator(rep, src):
             for n_ in ast.walk(st_):
                 if isinstance(n_, (ast.Break, ast.Return)):
                     success_nodes.add(id(n_))
-    bad = failing_exit_reaches(g, inner, t, success_nodes, {y.id for y in goals})
+    exhaust = None
+    if nx is not None:
+        if nx[2] is None:
+            dv = ('raises',)          # next() without a default: StopIteration ends the generator with an error, never with a patch
+        else:
+            dvs = const_set(nx[2])
+            if dvs is None or len(dvs) != 1:
+                raise AnalysisError('%s: the default of next() is not a constant' % fn.site)
+            dv = next(iter(dvs))
+        exhaust = (nx[0], nx[1], dv, const_set)
+    bad = failing_exit_reaches(g, inner, t, success_nodes, {y.id for y in goals}, exhaust)
     if bad is not None:
         rep.fail('C18.R3', fn.site, 'text block must end with "."',
                  'when the input ends inside the text of an a/c command (or the loop is left other than at the "." line) control reaches `%s`: '
